@@ -274,7 +274,13 @@ class AbstractGrader(ObjectWithSchema):
             not work when an ItemGrader is embedded inside a ListGrader. See
             ItemGrader.__call__ for the implementation.
         """
-        student_input = self.ensure_text_inputs(student_input)
+        try:
+            student_input = self.ensure_text_inputs(student_input)
+        except ConfigError as error:
+            if self.config['debug']:
+                raise
+            # Render line breaks like every other error message that reaches edX
+            raise ConfigError(str(error).replace('\n', '<br/>'))
 
         # Initialize the debug log
         self.create_debuglog(student_input)
